@@ -488,4 +488,150 @@ theorem bad_tail_rejected (s : Bytes) (i : Nat)
   · split
     · rfl
     · simp [hnoip, hp]
+/-! ### net.ParseIP always yields the 16-byte form -/
+
+theorem v4go_len (s : Bytes) : ∀ (first prevDot : Bool) (val pos digLen : Nat) (acc f : Bytes),
+    acc.length = pos → pos ≤ 3 → v4go s first prevDot val pos digLen acc = some f → f.length = 4 := by
+  induction s with
+  | nil =>
+    intro first prevDot val pos digLen acc f ha hp h
+    simp only [v4go] at h
+    split at h
+    · cases h
+    · cases h; simp; omega
+  | cons c rest ih =>
+    intro first prevDot val pos digLen acc f ha hp h
+    simp only [v4go] at h
+    split at h
+    · split at h
+      · cases h
+      · split at h
+        · cases h
+        · exact ih _ _ _ _ _ _ _ ha hp h
+    · split at h
+      · split at h
+        · cases h
+        · split at h
+          · cases h
+          · rename_i hp3
+            exact ih _ _ _ _ _ _ _ (by simp [ha]) (by simp at hp3; omega) h
+      · cases h
+
+theorem parseV4_len (s f : Bytes) (h : parseV4Fields s = some f) : f.length = 4 :=
+  v4go_len s true false 0 0 0 [] f rfl (by omega) h
+
+theorem v6loop_len (fuel : Nat) : ∀ (s ip : Bytes) (ell : Option Nat) (ip' : Bytes) (ell' : Option Nat) (rest : Bytes),
+    ip.length % 2 = 0 → ip.length ≤ 16 → v6loop fuel s ip ell = some (ip', ell', rest) →
+    ip'.length % 2 = 0 ∧ ip'.length ≤ 16 := by
+  induction fuel with
+  | zero =>
+    intro s ip ell ip' ell' rest h2 h16 h
+    simp only [v6loop] at h
+    cases h; exact ⟨h2, h16⟩
+  | succ fuel ih =>
+    intro s ip ell ip' ell' rest h2 h16 h
+    simp only [v6loop] at h
+    split at h
+    · cases h; exact ⟨h2, h16⟩
+    · rename_i hlt
+      split at h
+      · cases h
+      · split at h
+        · cases h
+        · split at h
+          · -- embedded IPv4
+            split at h
+            · cases h
+            · split at h
+              · cases h
+              · rename_i hfit
+                split at h
+                · cases h
+                · rename_i f hf
+                  cases h
+                  have := parseV4_len _ f hf
+                  simp only [List.length_append, this]
+                  simp at hfit
+                  omega
+          · cases h
+            simp only [List.length_append, List.length_cons, List.length_nil]
+            omega
+          · have hl : (ip ++ [UInt8.ofNat (‹Nat› / 256), UInt8.ofNat (‹Nat› % 256)]).length = ip.length + 2 := by simp
+            split at h
+            · cases h
+            · split at h
+              · cases h
+              · split at h
+                · cases h
+                · split at h
+                  · cases h
+                    simp only [List.length_append, List.length_cons, List.length_nil]
+                    omega
+                  · exact ih _ _ _ _ _ _ (by rw [hl]; omega) (by rw [hl]; omega) h
+              · exact ih _ _ _ _ _ _ (by rw [hl]; omega) (by rw [hl]; omega) h
+
+theorem zeros16 : (zeros 16).length = 16 := by simp
+
+theorem v6tail_len (s : Bytes) (ell : Option Nat) (a : Bytes)
+    (h : (if (ell.isSome && s.isEmpty) = true then some (zeros 16)
+      else match v6loop 9 s [] ell with
+        | none => none
+        | some (ip, ell, rest) =>
+          if (!rest.isEmpty) = true then none
+          else if ip.length < 16 then
+            match ell with
+            | none => none
+            | some e => some (ip.take e ++ zeros (16 - ip.length) ++ ip.drop e)
+          else if ell.isSome = true then none
+          else some ip) = some a) : a.length = 16 := by
+  split at h
+  · cases h; exact zeros16
+  · split at h
+    · cases h
+    · rename_i ip ell' rest hloop
+      have hinv := v6loop_len 9 _ [] _ ip ell' rest (by simp) (by simp) hloop
+      split at h
+      · cases h
+      · split at h
+        · split at h
+          · cases h
+          · cases h
+            simp only [List.length_append, List.length_take, List.length_drop, zeros_length]
+            omega
+        · split at h
+          · cases h
+          · cases h; omega
+
+theorem parseV6_len (s a : Bytes) (h : parseV6 s = some a) : a.length = 16 := by
+  unfold parseV6 at h
+  split at h
+  · cases h
+  · split at h
+    · rename_i heq
+      split at heq
+      · cases heq; exact v6tail_len _ _ a h
+      · cases heq; exact v6tail_len _ _ a h
+
+/-- net.ParseIP always yields the 16-byte form -/
+theorem parseIP_len (s a : Bytes) (h : parseIP s = some a) : a.length = 16 := by
+  unfold parseIP at h
+  split at h
+  · cases hv : parseV4Fields s with
+    | none => simp [hv] at h
+    | some f =>
+      simp [hv] at h
+      subst h
+      have := parseV4_len s f hv
+      simp only [List.length_append, this]; rfl
+  · exact parseV6_len s a h
+  · cases h
+
+theorem to4_len (a a4 : Bytes) (h16 : a.length = 16) (h : to4 a = some a4) : a4.length = 4 := by
+  unfold to4 at h
+  split at h
+  · rename_i h4; simp at h4; omega
+  · split at h
+    · cases h; rw [List.length_drop, h16]
+    · cases h
+
 end Ps3.Proof.IPBlock
